@@ -95,8 +95,7 @@ StringDictionaryRPDAC::StringDictionaryRPDAC(IteratorDictString *it) {
   delete[] dict;
 
   // Building the array for the sequence
-  rp->Cdac =
-      new DAC_VLS(cdict, ic - 2, bits(rp->rules + rp->terminals), maxseq);
+  rp->Cdac = new DAC_VLS(cdict, ic, bits(rp->rules + rp->terminals), maxseq);
 
   delete[] cdict;
 }
